@@ -26,7 +26,9 @@ def run(prop, tier):
     jobs = [(exe(), s, "c11,posix") for s in SCEN]
     # build-selectable models that allocate differently: general rwlock, sim atomics/spinlock
     jobs += [(exe(rwlock="general"), "locks", "c11,general"), (exe(atomic="sim"), "locks", "sim,posix"), (exe(atomic="sim"), "threads-tls", "sim,posix")]
-    common.parallel(lambda j: common.run_harness(j[0], ["all", j[1]], acc, "alloc_fault[%s] %s" % (j[2], j[1]), timeout=3000, crash_prop=prop, env={"VERIF_SCRATCH_DIR": d}), jobs)
+    if tier == "thorough":
+        jobs += [(exe(), sc, "c11,posix", "pairs") for sc in SCEN]
+    common.parallel(lambda j: common.run_harness(j[0], ["all", j[1]] + (["pairs"] if len(j) > 3 else []), acc, "alloc_fault[%s] %s%s" % (j[2], j[1], " pairs" if len(j) > 3 else ""), timeout=3000, crash_prop=prop, env={"VERIF_SCRATCH_DIR": d}), jobs)
     for v in acc.viols:
         var = v.get("job", "").split("[")[1].split("]")[0] if "[" in v.get("job", "") else ""
         if var and var != "c11,posix":
@@ -35,7 +37,7 @@ def run(prop, tier):
     cov = dict(evaluations=s.get("evaluations", 0), distinct_nontrivial=s.get("nontrivial", 0),
                rule="for each of %d scenarios (trees x3, hash table + list, strings + errors, INI parse + getters, all 11 hash types, semaphore/shm/shm buffer, TCP+UDP sockets with addresses on loopback, "
                     "directory iteration, library loader, thread create/join + foreign thread + TLS, every lock type; locks/threads also on the general rwlock and sim atomic models): the run is executed "
-                    "once to count its allocations N, then once per (k < N, mode in {k only, k and all later}) in a forked ASan/UBSan child with the failing allocator installed through p_mem_set_vtable; "
+                    "once to count its allocations N, then once per (k < N, mode in {k only, k and all later}) - thorough: also every pair k1 < k2 of single failures - in a forked ASan/UBSan child with the failing allocator installed through p_mem_set_vtable; "
                     "oracle: child exits normally, block ledger balanced after the scenario freed what it obtained, pre-existing objects answer as before, no IPC name left. "
                     "non-trivial = (scenario, k, mode) triples whose fault was reached and survived" % len(SCEN),
                exhaustive=True, scenarios=s.get("scenarios", 0))
